@@ -510,16 +510,18 @@ def pivot(q, names, types, rows):
             idx.append(names.index(k.value))
     c1, c2 = idx
     others = [i for i in range(len(names)) if i not in idx]
+    def nullfirst(v):
+        return (v is not None, v)
     keys2 = []
     for r in rows:
         if r[c2] not in keys2:
             keys2.append(r[c2])
-    keys2.sort()
+    keys2.sort(key=nullfirst)
     keys1 = []
     for r in rows:
         if r[c1] not in keys1:
             keys1.append(r[c1])
-    keys1.sort()
+    keys1.sort(key=nullfirst)
     onames = [f'{names[c1]}/{names[c2]}']
     otypes = [types[c1]]
     for k2 in keys2:
